@@ -787,8 +787,12 @@ impl Indexable for ast::InnerValue {
         let mut lhs_typ = self.simple_value()?.index(ctx)?;
         for suffix in self.suffixes() {
             lhs_typ = match suffix {
-                ast::ValueSuffix::RangeSuffix(_) => match lhs_typ {
-                    Type::Bits(_) => Some(Type::Bit),
+                ast::ValueSuffix::RangeSuffix(range_suffix) => match lhs_typ {
+                    // one selected bit is a `bit`, several are `bits<n>`
+                    Type::Bits(_) => match selected_bit_count(&range_suffix) {
+                        Some(1) | None => Some(Type::Bit),
+                        Some(width) => Some(Type::Bits(width)),
+                    },
                     _ => None,
                 },
                 ast::ValueSuffix::SliceSuffix(slice_suffix) => {
@@ -815,6 +819,19 @@ impl Indexable for ast::InnerValue {
         }
         Some(lhs_typ)
     }
+}
+
+fn selected_bit_count(range_suffix: &ast::RangeSuffix) -> Option<usize> {
+    let mut count = 0;
+    for piece in range_suffix.range_list()?.pieces() {
+        let start = piece.start()?.value()?;
+        count += match piece.end().and_then(|end| end.value()) {
+            // `7-4` is lexed as `7` and `-4`
+            Some(end) => (start.unsigned_abs().abs_diff(end.unsigned_abs()) + 1) as usize,
+            None => 1,
+        };
+    }
+    Some(count)
 }
 
 impl Indexable for ast::SimpleValue {
